@@ -1,6 +1,7 @@
 SPECIFICATION TSpec
 CONSTANTS
   BS = 16
+  RdMax = 15
   Nmaxbs = {}
   Extras = {}
   Nbrs = {}
